@@ -12,6 +12,7 @@ import (
 	"io"
 	"reflect"
 	"strconv"
+	"strings"
 	"unicode/utf8"
 
 	"verifmc/engine"
@@ -102,14 +103,16 @@ const (
 	c12PlainReaderEOFWith
 	c12PlainReaderZeroFirst
 	c12Nil
-	c12BufferReaderPartial // a buffer.Reader of which two bytes were read before
-	c12BytesBufferPartial  // a bytes.Buffer of which two bytes were read before
-	c12FailAlone           // + fail index
-	c12FailWithData        // + fail index
+	c12BufferReaderPartial  // a buffer.Reader of which two bytes were read before
+	c12BytesBufferPartial   // a bytes.Buffer of which two bytes were read before
+	c12StringsReaderPartial // a strings.Reader (it has Size() but no Bytes()) of which two bytes were read before
+	c12BytesReaderSeeked    // a bytes.Reader that was moved to offset 2 with Seek
+	c12FailAlone            // + fail index
+	c12FailWithData         // + fail index
 	c12NumCtors
 )
 
-var c12CtorNames = []string{"bytes-nospare", "bytes-spare", "string", "reader-Bytes()-nospare", "reader-Bytes()-spare", "reader-1byte", "reader-eof-with-data", "reader-zero-first", "nil-reader", "buffer.Reader-partly-read", "bytes.Buffer-partly-read", "reader-fails-alone", "reader-fails-with-data"}
+var c12CtorNames = []string{"bytes-nospare", "bytes-spare", "string", "reader-Bytes()-nospare", "reader-Bytes()-spare", "reader-1byte", "reader-eof-with-data", "reader-zero-first", "nil-reader", "buffer.Reader-partly-read", "bytes.Buffer-partly-read", "strings.Reader-partly-read", "bytes.Reader-after-Seek", "reader-fails-alone", "reader-fails-with-data"}
 
 type c12Built struct {
 	z        cursor
@@ -174,6 +177,14 @@ func c12Build(kind string, ctor int, failAt int, data []byte) *c12Built {
 		bb := bytes.NewBuffer(append([]byte("zz"), data...))
 		bb.Read(make([]byte, 2))
 		r = bb
+	case c12StringsReaderPartial:
+		sr := strings.NewReader("zz" + string(data))
+		sr.Read(make([]byte, 2))
+		r = sr
+	case c12BytesReaderSeeked:
+		br := bytes.NewReader(append([]byte("zz"), data...))
+		br.Seek(2, io.SeekStart)
+		r = br
 	case c12FailAlone:
 		r = &failReader{data: data, chunk: 2, failAt: failAt}
 		b.data, b.err = nil, errCustom
@@ -494,7 +505,7 @@ func c12Setup(c *engine.Ctx) {
 	c.Register(&engine.Space{Name: "borrow", Run: c12Borrow})
 }
 
-var c12Atoms = engine.Atoms("a", "\x00", "\x80", "\xa9", "\xc3", "\xe2", "\xf0", "é", "\u2028", "😀")
+var c12Atoms = engine.Atoms("a", "\x00", "\x80", "\xa9", "\xc3", "\xe2", "\xf0", "é", "\u2028", "😀", "\u0101", "\u07ff")
 
 func c12Work(c *engine.Ctx) {
 	sp := c.SpaceByName("cursor")
@@ -524,7 +535,7 @@ func c12Work(c *engine.Ctx) {
 		c.Exec(c.SpaceByName("borrow"), in, nil)
 		c.Count("exec", 1)
 		if len(idx) == maxLen && idx[0] == 7 && idx[maxLen-1] == 5 {
-			c.Sample(fmt.Sprintf("input %q: fix-point over all (start,pos) states × 13 constructors × {Input,Lexer}", in))
+			c.Sample(fmt.Sprintf("input %q: fix-point over all (start,pos) states × 15 constructors × {Input,Lexer}", in))
 		}
 	})
 	c.Count("min:completed_level", int64(lvl))
@@ -545,7 +556,7 @@ func c12Finish(c *engine.Ctx, cov map[string]interface{}) string {
 func init() {
 	register(&engine.Check{
 		ID: "C12", Level: "model_checking",
-		Rule:        "every byte string of ≤k atoms over {a,NUL,0x80,0xA9,0xC3,0xE2,0xF0,é,U+2028,😀} × 13 constructors × {parse.Input, buffer.Lexer}; per case a breadth-first search to a fix-point over all reachable (start,pos) states of the real object (successor = fresh object + shortest history + one operation), every observer and mutator compared with a reference cursor (PeekErr also up to 3 bytes beyond the end); per input also every entry point that builds an Input over caller bytes itself (Position and NewError at every offset in [-1,len+1], css.IsIdent, css.IsURLUnquoted) with three kinds of bytes behind the data in the same array, which must be unchanged afterwards; distinct_nontrivial = canonical atom sequences of ≥2 atoms on non-failing constructors",
+		Rule:        "every byte string of ≤k atoms over {a,NUL,0x80,0xA9,0xC3,0xE2,0xF0,é,U+2028,😀,U+0101,U+07FF} × 15 constructors × {parse.Input, buffer.Lexer}; per case a breadth-first search to a fix-point over all reachable (start,pos) states of the real object (successor = fresh object + shortest history + one operation), every observer and mutator compared with a reference cursor (PeekErr also up to 3 bytes beyond the end); per input also every entry point that builds an Input over caller bytes itself (Position and NewError at every offset in [-1,len+1], css.IsIdent, css.IsURLUnquoted) with three kinds of bytes behind the data in the same array, which must be unchanged afterwards; distinct_nontrivial = canonical atom sequences of ≥2 atoms on non-failing constructors",
 		Assumptions: []string{"operations respect the documented contract: position never moved past the terminator or before start", "private fields start,pos,buf,err are read by reflection to show that equal model states mean equal implementation states (justifies the fix-point)"},
 		Setup:       c12Setup, Work: c12Work, Finish: c12Finish,
 	})
